@@ -9,15 +9,6 @@ func (rt *runtime) cmplEvaluateNodeProgram(node *nodeProgram, eval bool) Value {
 		rt.enterGlobalScope()
 		defer rt.leaveScope()
 	}
-	if eval {
-		// Bindings declared by eval code are deletable (ES5 10.4.2, 10.5).
-		scope := rt.scope
-		prev := scope.eval
-		scope.eval = true
-		defer func() {
-			scope.eval = prev
-		}()
-	}
 	rt.cmplFunctionDeclaration(node.functionList)
 	rt.cmplVariableDeclaration(node.varList)
 	if eval {
